@@ -18,7 +18,7 @@ the low-priority variants):
                                   the scheduler increments the counter when it gets to it)
  c ──begin (module counter +1; fn starts / Signal* returns)──▶ r
  r ──fnRet (fn returned or panicked / first effective done())──▶ d1
- d1 ──modDec──▶ d2 ──dec (global counter −1)──▶ d3 ──tokSend/tokDrop──▶ finished
+ d1 ──modDec──▶ d2 ──(stopCheck: m.checkIfStopComplete())──▶ d2 ──dec (global counter −1)──▶ d3 ──tokSend/tokDrop──▶ finished
 ```
 High-priority tasks: `hcall ─▶ hp ──hinc (own increment)──▶ hc ─▶ hr ─▶ hd1 ─▶ hd2 ─▶ d3`.
 
@@ -129,6 +129,8 @@ inductive Act
   | tokDrop                           -- concludeMicroTask: channel full, default branch
   | ret                               -- blocking call / effective done() returns to its caller
   | doneAgain                         -- a further done() call: CAS fails, nothing happens
+  | stopCheck                         -- concludeMicroTask: m.checkIfStopComplete() (no effect on the scheduler's state;
+                                      -- its effect on the module's stop protocol is `MAct.check`, see `MSt` below)
   deriving DecidableEq, Repr
 
 def isSel (s : St) : Bool := s.spc = 2 ∨ s.spc = 6
@@ -209,6 +211,7 @@ def step (s : St) : Act → Option St
   | .tokDrop => if 0 < s.d3 ∧ s.fin = 1 then some { s with d3 := s.d3 - 1 } else none
   | .ret => some s
   | .doneAgain => some s
+  | .stopCheck => some s
 
 def run (s : St) : List Act → Option St
   | [] => some s
@@ -254,11 +257,12 @@ structure DSt where
   mD : Nat
   flag : Nat     -- doneCalled
   dones : Nat    -- done() calls that have performed their CAS
+  chk : Nat      -- calls of m.checkIfStopComplete() made by this task's conclusion
   deriving Repr, DecidableEq
 
 def DSt.new (cls var nilm zd : Nat) : DSt :=
   { cls := cls, var := var, nilm := nilm, zd := zd, pc := 0, req := 0, execs := 0, out := 0, res := 9,
-    gI := 0, gD := 0, mI := 0, mD := 0, flag := 0, dones := 0 }
+    gI := 0, gD := 0, mI := 0, mD := 0, flag := 0, dones := 0, chk := 0 }
 
 def prioCls : Prio → Nat
   | .med => 0
@@ -294,7 +298,12 @@ def dstep (d : DSt) (a : Act) (me : Bool) : Option DSt :=
         else some { d with pc := 6, out := out }
       else none
     | .modDec high => if d.pc = 6 ∧ (high = true ↔ d.cls = 2) then some { d with pc := 7, mD := d.mD + 1 } else none
-    | .dec high => if d.pc = 7 ∧ (high = true ↔ d.cls = 2) then some { d with pc := 8, gD := d.gD + 1 } else none
+    | .stopCheck => if d.pc = 7 ∧ d.chk = 0 then some { d with chk := 1 } else none
+    | .dec high =>
+      -- `concludeChecksStop` (regenerated): the stop check stands, unconditionally, between the two decrements
+      if d.pc = 7 ∧ (high = true ↔ d.cls = 2) ∧ (concludeChecksStop = true → d.chk = 1) then
+        some { d with pc := 8, gD := d.gD + 1 }
+      else none
     | .tokSend => if d.pc = 8 then some { d with pc := 9 } else none
     | .tokDrop => if d.pc = 8 then some { d with pc := 9 } else none
     | .ret => if d.pc = 9 then some { d with pc := 10, res := if d.var = 0 then d.out else d.res } else none
@@ -321,6 +330,74 @@ def frun (f : FSt) : List (Act × Bool) → Option FSt
   | [] => some f
   | (a, me) :: as => match fstep f a me with
     | some f' => frun f' as
+    | none => none
+
+/-! ## One module followed individually: its microtask counter and the stop protocol
+
+`Module.microTaskCnt` is read by the module stop protocol (`modules/modules.go`): `stopAllTasks` sets the stop
+flag and waits for `stopComplete` *or* `moduleStopTimeout`; everything that ends inside the module — a
+concluding microtask among them — calls `checkIfStopComplete`, which completes the stop when the flag is set,
+nothing else is running (stop function, workers, tasks — the argument `oth` of `check`, an input of the
+environment here; that part of the protocol is the subject of C05/C06) and the microtask counter passes the
+regenerated comparison `stopCheckMicro` (`== 0`). A stop that timed out leaves the module offline with its
+microtasks still running; they conclude later — possibly after the module was started again — and microtasks
+can be submitted to a module in every lifecycle state (the stop function of a stopping module runs some;
+nothing refuses them on a stopped module). The counter is written by `runMicroTask`/`signalMicroTask`
+(`begin`) and `concludeMicroTask` (`modDec`) only: the extractor scans every file of the package and fails
+closed on any other write, so no lifecycle action below touches it.
+
+`sp`: 0 no stop in progress · 1 `stop()` has reset the stop state (status stopping) · 2 `stopAllTasks` has set
+the stop flag and waits · 3 it was woken by `stopComplete` or ran into the timeout. -/
+
+structure MSt where
+  kI : Nat       -- increments applied to this module's `microTaskCnt`
+  kD : Nat       -- decrements applied to it
+  run : Nat      -- microtasks of this module between their module increment and their module decrement
+  flag : Nat     -- stopFlag
+  done : Nat     -- stopCompleted
+  st : Nat       -- 0 offline, 1 online, 2 stopping
+  sp : Nat       -- stop()/stopAllTasks program counter
+  tmo : Nat      -- ghost: stops that ran into `moduleStopTimeout`
+  deriving Repr, DecidableEq
+
+/-- a started module (the state in which every recorded trace begins) -/
+def MSt.init : MSt := { kI := 0, kD := 0, run := 0, flag := 0, done := 1, st := 1, sp := 0, tmo := 0 }
+
+/-- value of this module's `microTaskCnt` -/
+def MSt.cnt (m : MSt) : Int := (m.kI : Int) - (m.kD : Int)
+
+/-- `atomic.AddInt32(m.microTaskCnt, k)` -/
+def addK (m : MSt) (k : Int) : MSt :=
+  if 0 ≤ k then { m with kI := m.kI + k.toNat } else { m with kD := m.kD + (-k).toNat }
+
+inductive MAct
+  | begin                 -- run/signalMicroTask of a microtask of this module: counter +1 (any lifecycle state)
+  | modDec                -- concludeMicroTask: counter −1
+  | check (oth : Bool)    -- checkIfStopComplete by anybody; `oth`: stop function, workers and tasks are done
+  | stopBegin             -- stop(): status stopping, stopComplete/stopCompleted reset
+  | flagSet               -- stopAllTasks: stopFlag.Set()
+  | wake                  -- stopAllTasks: <-m.stopComplete
+  | timeout               -- stopAllTasks: <-time.After(moduleStopTimeout): logs and goes on — the counter is left alone
+  | offline               -- stopAllTasks: status offline
+  | start                 -- start(): stopFlag.UnSet(), status starting/online
+  deriving DecidableEq, Repr
+
+def mstep (m : MSt) : MAct → Option MSt
+  | .begin => some (addK { m with run := m.run + 1 } dModRun)
+  | .modDec => if 0 < m.run then some (addK { m with run := m.run - 1 } dModConclude) else none
+  | .check oth =>
+    if m.flag = 1 ∧ oth = true ∧ stopCheckMicro m.cnt = true then some { m with done := 1 } else some m
+  | .stopBegin => if m.st = 1 ∧ m.sp = 0 then some { m with st := 2, sp := 1, done := 0 } else none
+  | .flagSet => if m.sp = 1 then some { m with flag := 1, sp := 2 } else none
+  | .wake => if m.sp = 2 ∧ m.done = 1 then some { m with sp := 3 } else none
+  | .timeout => if m.sp = 2 then some { m with sp := 3, tmo := m.tmo + 1 } else none
+  | .offline => if m.sp = 3 then some { m with st := 0, sp := 0 } else none
+  | .start => if m.st = 0 then some { m with st := 1, flag := 0 } else none
+
+def mrun (m : MSt) : List MAct → Option MSt
+  | [] => some m
+  | a :: as => match mstep m a with
+    | some m' => mrun m' as
     | none => none
 
 end PB.MicroTasks
